@@ -9,7 +9,9 @@ theorem flush_rem (p c : Bool) (sid : StateId) (snap : Snap) (res : List Respond
   simp only
   split
   · rfl
-  · split <;> rfl
+  · split
+    · rfl
+    · split <;> rfl
 
 theorem flush_snap (p c : Bool) (sid : StateId) (snap : Snap) (res : List Responder) :
     (flush p c sid snap res).snap = (handleAll c sid snap (popResponders p res).1).1 := by
@@ -17,12 +19,15 @@ theorem flush_snap (p c : Bool) (sid : StateId) (snap : Snap) (res : List Respon
   simp only
   split
   · rfl
-  · split <;> rfl
+  · split
+    · rfl
+    · split <;> rfl
 
 theorem flush_result_ok {p c : Bool} {sid : StateId} {snap : Snap} {res : List Responder} {out : List Resp}
     (h : (flush p c sid snap res).result = .ok out) :
     (handleAll c sid snap (popResponders p res).1).2.2.2 = none ∧
-    Resp.merge (handleAll c sid snap (popResponders p res).1).2.1 = .ok out := by
+    ((c = true ∧ out = []) ∨
+     (c = false ∧ Resp.merge (handleAll c sid snap (popResponders p res).1).2.1 = .ok out)) := by
   unfold flush at h
   simp only at h
   split at h
@@ -30,8 +35,13 @@ theorem flush_result_ok {p c : Bool} {sid : StateId} {snap : Snap} {res : List R
   · next he =>
     refine ⟨he, ?_⟩
     split at h
-    · next hm => simp at h; subst h; exact hm
-    · simp at h
+    · next hc => simp at h; exact Or.inl ⟨hc, h⟩
+    · next hc =>
+      right
+      refine ⟨by simpa using hc, ?_⟩
+      split at h
+      · next hm => simp at h; subst h; exact hm
+      · simp at h
 
 theorem any_eq_of_filter_eq {α} {p : α → Bool} {l1 l2 : List α} (h : l1.filter p = l2.filter p) :
     l1.any p = l2.any p := by
@@ -40,7 +50,7 @@ theorem any_eq_of_filter_eq {α} {p : α → Bool} {l1 l2 : List α} (h : l1.fil
     induction l with
     | nil => rfl
     | cons a t ih =>
-      cases hp : p a <;> simp [List.filter_cons, hp, ih]
+      cases hp : p a <;> simp [hp, ih]
   rw [key, key, h]
 
 end Gluon
